@@ -39,7 +39,7 @@ func verifMarkExprs() []string {
 		"l[*]", "l[*].x", "o[*].x", "o.*.x", "[a, b][*]", "{x = a}[*].x",
 		"!a", "!(a && b)", "(a || b) && c", "a ? (b || c) : (b && c)",
 		"[for v in l : v]", "{for k, v in o : k => v}", "[for v in l : v if a]",
-		"l[0]", "o.x", "o[\"x\"]", "\"${a}\"", "\"x${a}y${b}\"", "%{ if a }yes%{ else }no%{ endif }",
+		"l[0]", "o.x", "o[\"x\"]", "u.x", "u[\"x\"]", "ul[0]", "\"${a}\"", "\"x${a}y${b}\"", "%{ if a }yes%{ else }no%{ endif }",
 	)
 	return out
 }
@@ -56,6 +56,8 @@ func TestVerifReplayMarks(t *testing.T) {
 		"o": cty.ObjectVal(map[string]cty.Value{"x": cty.NumberIntVal(1)}),
 		"n": cty.NullVal(cty.Object(map[string]cty.Type{"x": cty.Number})),
 		"s": cty.NullVal(cty.String),
+		"u": cty.UnknownVal(cty.Object(map[string]cty.Type{"x": cty.Number})),
+		"ul": cty.UnknownVal(cty.List(cty.Number)),
 	}
 	alts := map[string]cty.Value{
 		"a": cty.False, "b": cty.True, "c": cty.False,
@@ -63,6 +65,8 @@ func TestVerifReplayMarks(t *testing.T) {
 		"o": cty.ObjectVal(map[string]cty.Value{"x": cty.NumberIntVal(2)}),
 		"n": cty.ObjectVal(map[string]cty.Value{"x": cty.NumberIntVal(1)}),
 		"s": cty.StringVal("x"),
+		"u": cty.ObjectVal(map[string]cty.Value{"x": cty.NumberIntVal(1)}),
+		"ul": cty.ListVal([]cty.Value{cty.NumberIntVal(1)}),
 	}
 	n, fails := 0, 0
 	for _, src := range verifMarkExprs() {
@@ -80,7 +84,7 @@ func TestVerifReplayMarks(t *testing.T) {
 					for k, v := range base {
 						vars[k] = v
 					}
-					if nested && content.Type().IsObjectType() && !content.IsNull() {
+					if nested && content.Type().IsObjectType() && !content.IsNull() && content.IsKnown() {
 						m := map[string]cty.Value{}
 						for k, v := range content.AsValueMap() {
 							m[k] = v.Mark("secret")
@@ -114,5 +118,5 @@ func TestVerifReplayMarks(t *testing.T) {
 			}
 		}
 	}
-	fmt.Printf("STANDIN inputs=%d bound=\"%d expressions (binary operators, conditionals, splats, for, index, templates over 3 boolean, 2 collection and 2 nullable variables), each variable marked in turn (top level and nested), two contents each\"\n", n, len(verifMarkExprs()))
+	fmt.Printf("STANDIN inputs=%d bound=\"%d expressions (binary operators, conditionals, splats, for, index, templates over 3 boolean, 2 collection, 2 nullable and 2 unknown variables), each variable marked in turn (top level and nested), two contents each\"\n", n, len(verifMarkExprs()))
 }
